@@ -232,5 +232,14 @@ pub fn flat_tokens(src: &str) -> Result<Vec<String>, String> {
         }
     }
     walk(ts, &mut out);
-    Ok(out)
+    // formatters add or drop a trailing comma before a closing delimiter when they re-wrap a list;
+    // that is layout, not content: normalise it away on both sides
+    let mut norm: Vec<String> = Vec::with_capacity(out.len());
+    for t in out {
+        if (t == ")" || t == "}" || t == "]" || t == ">") && norm.last().map(|l| l == ",").unwrap_or(false) {
+            norm.pop();
+        }
+        norm.push(t);
+    }
+    Ok(norm)
 }
